@@ -1064,7 +1064,13 @@ def run(ctx):
         v["replay"]["protos"] = kept
 
     # ---------------- which sites were exercised (runtime trace of the real passes)
+    found_after = scan_sites()           # the tree may have been edited while the workers ran: accept both line maps
+    if found_after != found:
+        ctx.coverage["source_changed_during_run"] = True
+        for (f, fn, var, how, ln, kind) in found_after:
+            line2site.setdefault((f[:-3] + ":" + fn.split(".")[-1], ln), (f, fn, var, how))
     site_max = {}
+    seen_lines = {}
     runtime_unmodelled = []
     for jid, (job, res, dt) in done.items():
         if not job.get("set_order"):
@@ -1076,11 +1082,13 @@ def run(ctx):
                 continue
             key = f"{site[0]}:{site[1]}:{site[2]}:{ln}"
             site_max[key] = max(site_max.get(key, 0), mx)
+            seen_lines.setdefault((site[0], site[1], site[2]), set()).add(ln)
     ctx.oblige("tie:runtime-set-iterations-all-modelled", not runtime_unmodelled, "tie",
                "" if not runtime_unmodelled else f"sets created by set() in the converter core were iterated at unmodelled places: {sorted(set(runtime_unmodelled))}")
     for (fk, ln) in sorted(set(runtime_unmodelled)):
         ctx.oblige(f"unmodelled set iteration: {fk}:{ln}", False, "tie", "observed at run time")
-    all_site_keys = [f"{f}:{fn}:{var}:{ln}" for (f, fn, var, how, ln, kind) in found if kind == "set"]
+    all_site_keys = [f"{f}:{fn}:{var}:{ln}" for (f, fn, var, how, ln, kind) in (found_after if found_after != found else found)
+                     if kind == "set"]
     exercised2 = sorted(k for k in all_site_keys if site_max.get(k, 0) >= 2)
     not_ex = sorted(k for k in all_site_keys if site_max.get(k, 0) < 2)
     per_req_sites = {}
@@ -1104,6 +1112,7 @@ def run(ctx):
         "level_detail": "proof, partial: 13 site/name/cache theorems proved, 2 site theorems refuted (S8, S14) with partial versions; "
                         "seeds/histories/import orders/set orders explored on the real code",
         "requests": len(reqs), "request_list": reqs, "requests_failing_deterministically": n_err,
+        "failing_requests": {k: v for k, v in base.items() if v.startswith("error:")},
         "hash_seeds": sorted(j["hashseed"] for j, r, d in done.values() if j["kind"] == "hashseed"),
         "histories": sum(1 for j, r, d in done.values() if j["kind"] == "history"),
         "history_export_positions": n_hist_positions,
